@@ -121,12 +121,12 @@ Definition TcpFacts (t : tcp_info) : Prop :=
     t_q t = N.lor (qt a b fA d e f g h) (o_quirks (t_opts t)) /\
     (fA = false -> 0 <= t_type t < 16) /\ (fA = true -> 16 <= t_type t).
 
-Lemma parse_facts v pk k : bytes pk -> parse_packet v pk = Framed (Ok k) ->
+Lemma parse_facts v pk k : bytes pk -> parse_datagram v pk = Framed (Ok k) ->
   (if v =? 4 then i_ver (k_ip k) = 4 /\ exists e vv d z, i_q (k_ip k) = q4 e vv d z
    else i_ver (k_ip k) = 6 /\ exists f e, i_q (k_ip k) = q6 f e) /\
   TcpFacts (k_tcp k).
 Proof.
-  intros Hb H. unfold parse_packet in H.
+  intros Hb H. unfold parse_datagram in H.
   destruct (if v =? 4 then ip4 pk else ip6 pk) as [ip|] eqn:Hip; [|discriminate].
   destruct (negb (i_proto ip =? 6) || negb (i_fragoff ip =? 0)); [discriminate|].
   destruct (tcp_seg (i_payload ip)) as [[t|er]|] eqn:Ht; try discriminate.
